@@ -285,7 +285,7 @@ func runLockstep(t *testing.T, idx int, mode string, rng *mon.RNG) {
 			ls.do(o)
 			synctest.Wait()
 			ls.compareStarts()
-			if i%5 == 4 && !w.viol {
+			if i%5 == 4 && !w.viol.Load() {
 				ls.compareEntries(w.entries(0))
 			}
 			w.checkCtx(true, mode)
@@ -293,7 +293,7 @@ func runLockstep(t *testing.T, idx int, mode string, rng *mon.RNG) {
 				// looked at, not judged: the statement does not speak about timers
 				rec.Count("jump.observed_more_than_one_armed_timer", 1)
 			}
-			if w.viol {
+			if w.viol.Load() {
 				break
 			}
 		}
@@ -303,13 +303,13 @@ func runLockstep(t *testing.T, idx int, mode string, rng *mon.RNG) {
 		w.checkCtx(false, mode)
 		w.releaseForever(0)
 		synctest.Wait()
-		if !w.viol {
+		if !w.viol.Load() {
 			ls.last = "final-stop"
 			ls.compareStarts()
 			ls.compareEntries(w.entries(0))
 			w.checkCtx(true, mode)
 		}
-		if !w.viol {
+		if !w.viol.Load() {
 			// nothing may start after Stop returned, however far the clock goes
 			if jump {
 				w.vc.Step(3 * time.Minute)
@@ -484,7 +484,7 @@ func (m *refModel) describe() string {
 
 func (ls *lockstep) compareEntries(r *opRec) {
 	w, m := ls.w, ls.m
-	if w.viol {
+	if w.viol.Load() {
 		return
 	}
 	rec.Count("lockstep.entries_compared", 1)
